@@ -51,6 +51,10 @@ func RunProc(sc ProcScenario) (evs []Ev, inconclusive string) {
 	if sc.Kind == "sliding" {
 		addHook = "sw.add"
 	}
+	if sc.Kind == "session" {
+		addHook = "ss.add"
+		sc.Free = true
+	}
 	startNsG := start.UnixNano()
 	gridNsG := sc.SizeMs * 1000000
 	if sc.Kind == "sliding" {
@@ -74,6 +78,9 @@ func RunProc(sc ProcScenario) (evs []Ev, inconclusive string) {
 		sql = fmt.Sprintf("SELECT g, count(*) AS c, sum(v) AS s, collect(id) AS ids, window_start() AS ws, window_end() AS we FROM stream GROUP BY g, SlidingWindow('%dms','%dms')", sc.SizeMs, sc.SlideMs)
 		gridNs = sc.SlideMs * 1000000
 	}
+	if sc.Kind == "session" { // size_ms is the session timeout
+		sql = fmt.Sprintf("SELECT g, count(*) AS c, sum(v) AS s, collect(id) AS ids, window_start() AS ws, window_end() AS we FROM stream GROUP BY g, SessionWindow('%dms')", sc.SizeMs)
+	}
 	if err := s.Execute(sql); err != nil {
 		return nil, "execute: " + err.Error()
 	}
@@ -81,7 +88,7 @@ func RunProc(sc ProcScenario) (evs []Ev, inconclusive string) {
 	defer s.Stop()
 	w := s.Stream().Window
 	in.Bind(s.Stream(), w)
-	in.Log(Ev{"tr": sc.Tr, "e": "reset", "kind": "proc" + map[bool]string{true: "sliding", false: "tumbling"}[sc.Kind == "sliding"], "size": sc.SizeMs * 1000, "slide": sc.SlideMs * 1000,
+	in.Log(Ev{"tr": sc.Tr, "e": "reset", "kind": "proc" + map[string]string{"": "tumbling", "tumbling": "tumbling", "sliding": "sliding", "session": "session"}[sc.Kind], "size": sc.SizeMs * 1000, "slide": sc.SlideMs * 1000,
 		"n": sc.SizeMs / max64(sc.SlideMs, 1), "free": b2i(sc.Free), "timing": b2i(sc.Timing)})
 	sizeNs := sc.SizeMs * 1000000
 	startNs := start.UnixNano()
@@ -105,6 +112,7 @@ func RunProc(sc ProcScenario) (evs []Ev, inconclusive string) {
 			e["gridrem"] = clamp32((wsn%gridNs + gridNs) % gridNs) // epoch alignment of the interval start
 			e["wsx"] = clamp32(floorDiv(wsn, gridNs) - floorDiv(startNs, gridNs))
 			e["late"] = clamp32((time.Now().UnixNano() - wen) / 1000) // microseconds between the interval's end and this delivery
+			e["t"] = us()
 			for _, k := range []string{"c", "s"} {
 				if n, ok := toI64(r[k]); ok {
 					e[k] = n
@@ -208,9 +216,14 @@ func RunProc(sc ProcScenario) (evs []Ev, inconclusive string) {
 		}
 		return n
 	}
-	if sc.Kind == "sliding" {
-		// every covering interval of the last row has fired one window size and one slide after it (plus slack)
-		time.Sleep(time.Duration(sc.SizeMs+3*sc.SlideMs)*time.Millisecond + 150*time.Millisecond)
+	if sc.Kind == "sliding" || sc.Kind == "session" {
+		// every covering interval of the last row has fired one window size and one slide after it (plus slack);
+		// a session has been reported one and a half timeouts after its last row
+		wait := time.Duration(sc.SizeMs+3*sc.SlideMs) * time.Millisecond
+		if sc.Kind == "session" {
+			wait = time.Duration(2*sc.SizeMs) * time.Millisecond
+		}
+		time.Sleep(wait + 150*time.Millisecond)
 		if sc.Starved() {
 			in.Log(Ev{"tr": sc.Tr, "e": "void", "why": "the driver itself was starved of CPU (a sleep overshot by more than 60 ms)"})
 		}
